@@ -107,20 +107,25 @@ func runC07(c *Ctx) {
 		c.fail("C07.R1", "cursor-stores vmm.earlyReserveLastUsed", fmt.Sprintf("expected one initialiser and at least one store in EarlyReserveRegion, found %d / %d", ninit, nstore), m.pos(reserve.Pos()))
 	}
 	isStore := func(n int) bool { return contains(storeNodes, n) }
-	for i, rn := range g.Returns() {
-		ret := g.Ins[rn].(*ssa.Return)
+	// (by return case: with a single exit the result variables merge the cases)
+	for i, rc := range g.ReturnCases() {
+		rn := rc.Ret
 		key := fmt.Sprintf("reserve-return %s #%d", m.fnName(reserve), i)
-		if isNilConst(ret.Results[1]) {
-			okB, _ := g.MustPassBefore(rn, isStore)
+		if len(rc.Vals) != 2 {
+			c.fail("C07.R1", key, "EarlyReserveRegion does not return (address, error)", g.posOf(rn))
+			continue
+		}
+		if isNil, _ := g.caseNil(rc, rc.Vals[1]); isNil {
+			okB := g.CaseMustPassBefore(rc, isStore)
 			// returned value: the cursor loaded after the store, or the stored value itself
 			okVal := false
-			if ld, ok := ret.Results[0].(*ssa.UnOp); ok && isLoadOfGlobal(ld, cursor) {
+			if ld, ok := rc.Vals[0].(*ssa.UnOp); ok && isLoadOfGlobal(ld, cursor) {
 				if okL, _ := g.MustPassBefore(g.Idx[ld], isStore); okL {
 					okVal = true
 				}
 			}
 			for _, sn := range storeNodes {
-				if g.Ins[sn].(*ssa.Store).Val == ret.Results[0] {
+				if g.Ins[sn].(*ssa.Store).Val == rc.Vals[0] {
 					okVal = true
 				}
 			}
@@ -136,11 +141,11 @@ func runC07(c *Ctx) {
 		}
 		dirty := false
 		for _, sn := range storeNodes {
-			if g.Reach(g.Succ[sn], nil, nil)[rn] {
+			if g.CaseReachedFrom(sn, rc) {
 				dirty = true
 			}
 		}
-		okErr := m.nonNilErrorGlobal(ret.Results[1])
+		_, okErr := g.caseNil(rc, rc.Vals[1])
 		c.check(!dirty && okErr, "C07.R1", key, "failure: a non-nil error and no cursor store on any path to it", "a failing request moves the cursor (it reserves something) or does not return a definite error", g.posOf(rn))
 	}
 
@@ -154,11 +159,17 @@ func runC07(c *Ctx) {
 			c.undecided("C07.R2", key, "no parameter named size")
 			continue
 		}
-		// the rounded value: the AND/AND_NOT whose polynomial is up12(size)
+		// the rounded value: every value whose polynomial is up12(size), however the
+		// rounding is spelled ((s+4095)&^4095, PageFromAddress(s+4095).Address(), ...)
+		isR := map[ssa.Value]bool{}
 		var rounded []ssa.Value
 		for _, in := range x.Ins {
-			if b, ok := in.(*ssa.BinOp); ok && (b.Op == token.AND || b.Op == token.AND_NOT) && z.Of(b).equal(upP) {
-				rounded = append(rounded, b)
+			switch in.(type) {
+			case *ssa.BinOp, *ssa.Convert, *ssa.ChangeType:
+				if v := in.(ssa.Value); isIntegral(v.Type()) && z.Of(v).equal(upP) {
+					isR[v] = true
+					rounded = append(rounded, v)
+				}
 			}
 		}
 		if len(rounded) == 0 {
@@ -167,75 +178,92 @@ func runC07(c *Ctx) {
 		}
 		bad := ""
 		var where []string
-		for _, rv := range rounded {
-			c.Evals++
-			// W1: test rounded < size
-			var wrapTrue, wrapFalse []Edge
-			for _, f := range x.AllEdgeFacts() {
-				if cmpMatch(f, token.LSS, func(v ssa.Value) bool { return v == rv }, func(v ssa.Value) bool { return v == ssa.Value(sizeP) }) {
-					wrapTrue = append(wrapTrue, f.Edge)
-				}
-				if cmpMatch(f, token.GEQ, func(v ssa.Value) bool { return v == rv }, func(v ssa.Value) bool { return v == ssa.Value(sizeP) }) {
-					wrapFalse = append(wrapFalse, f.Edge)
-				}
+		c.Evals++
+		isSize := func(v ssa.Value) bool { return stripConv(v) == ssa.Value(sizeP) }
+		isRv := func(v ssa.Value) bool { return isR[v] || isR[stripConv(v)] }
+		// W1: test rounded < size
+		var wrapTrue, wrapFalse []Edge
+		for _, f := range x.AllEdgeFacts() {
+			if cmpMatch(f, token.LSS, isRv, isSize) {
+				wrapTrue = append(wrapTrue, f.Edge)
 			}
-			if len(wrapTrue) == 0 {
-				bad = "the size is rounded up with (size + 4095) &^ 4095 in its own width and never tested for wrap-around (rounded < size): for size > 2^64-4096 the rounded size is 0 and the call succeeds reserving nothing"
-				where = []string{m.pos(rv.(ssa.Instruction).Pos())}
-				break
+			if cmpMatch(f, token.GEQ, isRv, isSize) {
+				wrapFalse = append(wrapFalse, f.Edge)
 			}
-			// true side: only error returns
-			for _, e := range wrapTrue {
-				r := x.Reach([]int{x.Succ[e.From][e.K]}, nil, nil)
-				for n, in := range x.Ins {
-					if !r[n] {
-						continue
-					}
-					if rt, ok := in.(*ssa.Return); ok {
-						if !m.nonNilErrorGlobal(rt.Results[len(rt.Results)-1]) {
-							bad = "the wrapped side of the test does not end in an error return"
-						}
-					}
+		}
+		if len(wrapTrue) == 0 {
+			bad = "the size is rounded up with (size + 4095) &^ 4095 in its own width and never tested for wrap-around (rounded < size): for size > 2^64-4096 the rounded size is 0 and the call succeeds reserving nothing"
+			where = []string{m.pos(rounded[0].(ssa.Instruction).Pos())}
+		}
+		// true side: only error returns
+		for _, e := range wrapTrue {
+			start := x.Succ[e.From][e.K]
+			r := x.Reach([]int{start}, nil, nil)
+			for n, in := range x.Ins {
+				if r[n] {
 					if _, ok := in.(*ssa.Store); ok {
 						bad = "state is modified on the wrapped side of the test"
 					}
 				}
 			}
-			// every other use of the rounded value is dominated by the not-wrapped edge
-			if refs := rv.Referrers(); refs != nil {
-				for _, u := range *refs {
-					if _, ok := u.(*ssa.DebugRef); ok {
-						continue
+			for _, rc := range x.ReturnCases() {
+				if !x.CaseReachedFrom(start, rc) && rc.At != start {
+					continue
+				}
+				if !m.nonNilErrorGlobal(rc.Vals[len(rc.Vals)-1]) {
+					bad = "the wrapped side of the test does not end in an error return"
+				}
+			}
+		}
+		// every use of the rounded value (and of what is computed from it) other than
+		// the wrap test is dominated by the not-wrapped edge
+		seen := map[ssa.Value]bool{}
+		work := append([]ssa.Value(nil), rounded...)
+		for len(work) > 0 && bad == "" {
+			rv := work[len(work)-1]
+			work = work[:len(work)-1]
+			if seen[rv] {
+				continue
+			}
+			seen[rv] = true
+			for _, u := range usersOf(rv) {
+				if _, ok := u.(*ssa.DebugRef); ok {
+					continue
+				}
+				if _, ok := u.(*ssa.Return); ok && u.Parent() != fn {
+					continue // the return of a spliced helper hands the value on, it does not use it
+				}
+				if m.helperOf(u) != nil {
+					continue // passing the value to a spliced helper: the helper's own uses are in this list
+				}
+				if b, ok := u.(*ssa.BinOp); ok && (b.Op == token.LSS || b.Op == token.GEQ || b.Op == token.GTR || b.Op == token.LEQ) {
+					if (isRv(b.X) && isSize(b.Y)) || (isRv(b.Y) && isSize(b.X)) {
+						continue // the wrap test itself
 					}
-					if _, ok := u.(*ssa.Return); ok && u.Parent() != fn {
-						continue // the return of a spliced helper hands the value on, it does not use it
-					}
-					if m.helperOf(u) != nil {
-						continue // passing the value to a spliced helper: the helper's own uses are in this list
-					}
-					if b, ok := u.(*ssa.BinOp); ok && b.Op == token.LSS || ok && b.Op == token.GEQ {
-						if (b.X == rv && b.Y == ssa.Value(sizeP)) || (b.Y == rv && b.X == ssa.Value(sizeP)) {
-							continue
+				}
+				switch uv := u.(type) {
+				case *ssa.BinOp, *ssa.Convert, *ssa.ChangeType:
+					// arithmetic: what matters is where its result is used
+					work = append(work, uv.(ssa.Value))
+					continue
+				}
+				un, ok := x.Idx[u]
+				if !ok {
+					continue
+				}
+				if phi, isPhi := u.(*ssa.Phi); isPhi {
+					// a phi use: the incoming edge must be dominated
+					pe := x.predEdges(phi.Block())
+					for i, e := range phi.Edges {
+						if e == rv && !x.edgeCrosses(pe[i], wrapFalse) {
+							bad = "the rounded size is used before the wrap test"
 						}
 					}
-					un, ok := x.Idx[u]
-					if !ok {
-						continue
-					}
-					if phi, isPhi := u.(*ssa.Phi); isPhi {
-						// a phi use: the incoming edge must be dominated
-						pe := x.predEdges(phi.Block())
-						for i, e := range phi.Edges {
-							if e == rv && !x.edgeCrosses(pe[i], wrapFalse) {
-								bad = "the rounded size is used before the wrap test"
-							}
-						}
-						continue
-					}
-					if !x.UnreachableWithout(un, wrapFalse) {
-						bad = "the rounded size is used on a path that has not passed the wrap test (rounded >= size)"
-						where = []string{x.posOf(un)}
-					}
+					continue
+				}
+				if !x.UnreachableWithout(un, wrapFalse) {
+					bad = "the rounded size is used on a path that has not passed the wrap test (rounded >= size)"
+					where = []string{x.posOf(un)}
 				}
 			}
 		}
@@ -270,24 +298,33 @@ func runC07(c *Ctx) {
 			}) {
 				bad = "pages are mapped although the reservation failed"
 			}
-			// first page = page of the reserved address
-			if phi, ok := stripConv(gm.callArgs(mn)[0]).(*ssa.Phi); ok {
-				okInit := false
-				for _, e := range phi.Edges {
-					if z.Of(e).equal(pFdiv(12, polyAtom(z.defaultAtom(call)+"#0"))) {
-						okInit = true
-					}
-				}
-				if !okInit && bad == "" {
+			// first page = page of the reserved address (the page argument in the
+			// first iteration of the mapping loop)
+			oldSubst := z.Subst
+			z.Subst = gm.substAt(mn)
+			if lf, inLoop := gm.loopFormAt(z, gm.Ins[mn].Block()); inLoop {
+				first, _, okA := lf.affineInT(gm.callArgs(mn)[0])
+				lf.Done()
+				if (!okA || !first.equal(pFdiv(12, polyAtom(z.defaultAtom(call)+"#0")))) && bad == "" {
 					bad = "the first page mapped is not the page of the reserved address"
 				}
 			}
+			z.Subst = oldSubst
 		}
-		for _, rn := range gm.Returns() {
-			rt := gm.Ins[rn].(*ssa.Return)
-			if isNilConst(rt.Results[1]) && !z.Of(rt.Results[0]).equal(pFdiv(12, polyAtom(z.defaultAtom(call)+"#0"))) && bad == "" {
+		for _, rc := range gm.ReturnCases() {
+			if len(rc.Vals) != 2 {
+				continue
+			}
+			isNil, _ := gm.caseNil(rc, rc.Vals[1])
+			if !isNil {
+				continue
+			}
+			oldSubst := z.Subst
+			z.Subst = gm.substAt(rc.At)
+			if !z.Of(rc.Vals[0]).equal(pFdiv(12, polyAtom(z.defaultAtom(call)+"#0"))) && bad == "" {
 				bad = "MapRegion does not return the page of the reserved address"
 			}
+			z.Subst = oldSubst
 		}
 	}
 	c.check(bad == "", "C07.R3", "reserve-then-map "+m.fnName(mapRegion), "reserves up4096(size), maps from the reserved page only after the reservation succeeded, returns that page", bad, m.pos(mapRegion.Pos()))
